@@ -359,7 +359,8 @@ class SolverMonitor:
         f = -np.asarray(b, float).ravel()
         A = A.tocsr()
         e0 = np.zeros(len(dof0)) if ext0 is None else np.broadcast_to(np.asarray(ext0, float), (len(dof0),))
-        inc0 = e0 - u[dof0] if ext0 is not None else np.zeros(len(dof0))
+        # ext0=None means zero prescribed values: the prescribed unknowns move by -u0, and that increment loads the free part
+        inc0 = e0 - np.asarray(u, float).ravel()[dof0]
         lhs = A[dof1, :][:, dof1] @ du[dof1] + f[dof1] + A[dof1, :][:, dof0] @ inc0
         scale = max(maxabs(f), maxabs(A[dof1, :][:, dof1] @ du[dof1]), 1e-300)
         if not np.all(np.isfinite(du)):
@@ -378,7 +379,7 @@ class SolverMonitor:
                 return
         run.compare("newton.solve", "clause=reduced-system", maxabs(lhs) / scale, 1e-8,
                     "partitioned solve: K11 du1 + r1 + K10 (ext0 - u0) != 0", unit="solve:reduced-system", config="solve")
-        if ext0 is not None:
+        if True:
             run.compare("newton.solve", "clause=prescribed-increment", maxabs(du[dof0] - inc0) / max(1.0, maxabs(inc0)), 1e-15,
                         "partitioned solve: du[dof0] != ext0 - u0", unit="solve:prescribed-increment")
 
